@@ -525,8 +525,79 @@ def codec_direct_multiset(ctx, m):
     return ok
 
 
+def api_forms(ctx, rng):
+    """public call forms of save / load that forward to the codecs (coverage audit): pathlib paths, the class-level loader,
+    to_file / from_file, the options of save (encode_point_data, encode_cell_data) and of load (out, ignore_orientation,
+    force_meshio_type, int_data_to_sets), MeshLine1"""
+    import pathlib
+    import skfem
+    from skfem.io.meshio import from_file, to_file, to_meshio, from_meshio
+    types = {'MeshTri1': 'triangle', 'MeshQuad1': 'quad', 'MeshTet1': 'tetra', 'MeshHex1': 'hexahedron'}
+    for name in FIRST:
+        m = rand_mesh1(name, rng)
+        sub, bnd = rand_tags(m, rng, empty=False)
+        m = m.with_subdomains(sub).with_boundaries(bnd)
+
+        def chk(form, M, want=None):
+            d = compare(want if want is not None else m, M)
+            ctx.count(('api', form, name), nontrivial=True)
+            ctx.hist('api_form', form)
+            if d:
+                ctx.fail(f'api:{form}:{name}', f'{form}: {d[0][0]} not preserved ({d[0][1]})',
+                         {'mesh': mesh_json(m), 'form': form, 'difference': list(d[0])})
+        with tempfile.TemporaryDirectory(prefix='c17_') as d, quiet():
+            fn = pathlib.Path(d) / 'm.vtk'
+            try:
+                m.save(fn)
+                chk('pathlib+class.load', getattr(skfem, name).load(fn))
+                chk('load:ignore_orientation', skfem.Mesh.load(fn, ignore_orientation=True))
+                chk('load:force_meshio_type', skfem.Mesh.load(fn, force_meshio_type=types[name]))
+                out = ['point_data', 'cell_data', 'cells_dict']
+                chk('load:out', skfem.Mesh.load(fn, out=out))
+                if not (isinstance(out[2], dict) and types[name] in out[2]):
+                    ctx.fail(f'api:load:out:{name}', 'out= does not return the requested attributes', {'mesh': mesh_json(m)})
+                m.save(fn, encode_point_data=True)
+                chk('save:encode_point_data', skfem.Mesh.load(fn))
+                m.save(fn, encode_cell_data=False)
+                M = skfem.Mesh.load(fn)
+                if M.boundaries is not None or M.subdomains is not None:
+                    ctx.fail(f'api:save:encode_cell_data=False:{name}', 'tags were written although encode_cell_data=False',
+                             {'mesh': mesh_json(m)})
+                from dataclasses import replace
+                chk('save:encode_cell_data=False', M, replace(m, _boundaries=None, _subdomains=None))
+                fu = str(pathlib.Path(d) / 'n.vtu')
+                to_file(m, fu)
+                chk('to_file/from_file', from_file(fu, None))
+            except Exception as e:                            # noqa: BLE001
+                import traceback
+                ctx.fail(f'api:exception:{name}:{type(e).__name__}', f'a save / load call form of a {name} raises {type(e).__name__}: {e}',
+                         {'mesh': mesh_json(m), 'traceback': traceback.format_exc()[-1200:]})
+            try:
+                m.save(fn)
+                chk('load:int_data_to_sets', skfem.Mesh.load(fn, int_data_to_sets=True))
+            except Exception as e:                            # noqa: BLE001
+                ctx.fail('load-option:int_data_to_sets', f'Mesh.load(..., int_data_to_sets=True) raises {type(e).__name__}: {e}',
+                         {'mesh': mesh_json(m), 'format': 'vtk'})
+    # one-dimensional meshes through the in-memory form
+    L = skfem.MeshLine1(np.array([[0., 1., 3., 6.]]), np.array([[0, 1, 2], [1, 2, 3]], dtype=np.int32))
+    L = L.with_subdomains({'a': np.array([1], dtype=np.int32)}).with_boundaries({'ends': L.boundary_facets()})
+    with quiet():
+        d = compare(L, from_meshio(to_meshio(L)))
+    if d:
+        ctx.fail('api:meshio:MeshLine1', f'MeshLine1 through to_meshio / from_meshio: {d[0]}', {'mesh': mesh_json(L)})
+    # observation outside the classes named by the property: MeshWedge1
+    try:
+        w = skfem.MeshTri1() * skfem.MeshLine(np.array([0., 1., 2.]))
+        with quiet():
+            from_meshio(to_meshio(w))
+        ctx.extra['wedge_through_meshio'] = 'ok'
+    except Exception as e:                                    # noqa: BLE001
+        ctx.extra['wedge_through_meshio'] = f'{type(e).__name__}: {e} (MeshWedge1 is outside the classes the property names)'
+
+
 def oracle(ctx):
     rng = np_seed(ctx, 71)
+    api_forms(ctx, np_seed(ctx, 73))
     empty_tags_then_restrict(ctx, rng)
     two_sided_tags(ctx, rng, ['meshio', 'gmsh22', 'gmsh41', 'vtk', 'vtu', 'npz', 'dict', 'json', 'vtu-ascii'])
     fmts = ['meshio', 'gmsh22', 'gmsh41', 'vtk', 'vtu', 'npz', 'dict', 'json', 'vtu-ascii']
@@ -617,12 +688,53 @@ def run(ctx):
     gen_ok = not errors
     ctx.compile_dyn(['gen/C17Gen.v'] + (['gen/C17GenHO.v'] if ho_ok else []) + ctx.copy_dyn())
     ctx.prove()
+    from ..c17_cov import Recorder
+    rec = Recorder()
+    rec.__enter__()
     try:
         correspondence(ctx, gen_ok, ho_ok)
     except Exception as e:      # noqa: BLE001 — the implementation raised while the cases were generated: the oracle
         import traceback        # below looks for the concrete input; the tie is reported as broken in any case
         ctx.broke('correspondence', f'case generation raised {type(e).__name__}', traceback.format_exc())
-    oracle(ctx)
+    try:
+        oracle(ctx)
+    finally:
+        rec.__exit__()
+    ctx.extra['api_coverage'] = rec.table(API_NOTES)
+
+
+API_NOTES = {
+             'draw': 'visualisation: out of scope',
+             'plot': 'visualisation: out of scope',
+             'element_finder': 'point location: property C14',
+             'mapping': 'reference mapping: property C10',
+             'p2e': 'incidence table: property C11',
+             'p2f': 'incidence table: property C11',
+             'p2t': 'incidence table: property C11',
+             'e2t': 'incidence table: property C11',
+             'f2e': 'derived connectivity: property C11',
+             'boundary_edges': 'derived connectivity: property C11',
+             'interior_edges': 'derived connectivity: property C11',
+             'boundary_nodes': 'derived connectivity: property C11',
+             'interior_nodes': 'derived connectivity: property C11',
+             'edges_satisfying': 'selector on edges: property C07/C11',
+             'nodes_satisfying': 'selector on nodes: property C07',
+             'normalize_nodes': 'selector on nodes: property C07',
+             'param': 'mesh parameter: not part of the statement',
+             'params': 'mesh parameter: not part of the statement',
+             'hash_args': 'cache key: property C15',
+             'deprecated': 'decorator: out of scope',
+             'smoothed': 'moves interior vertices, not one of the operations of the statement',
+             'brefdom': 'accessor',
+             'periodic': 'MeshDG constructor: periodic meshes are not among the classes of the statement',
+             'init_tensor': 'constructor (used to build the test meshes)',
+             'strip_extra_coordinates': 'exercised by the 2-D vtk/vtu round trips',
+             'is_valid': 'validation helper (the oracle validates independently)',
+             '__iter__': 'p, t = mesh: accessor',
+             'load': 'MeshDG.load / save raise NotImplementedError by design',
+             'save': 'MeshDG.load / save raise NotImplementedError by design'}
+
+API_NOTES.update({n: 'mesh surgery / selectors / constructors: exercised by the check of property C18' for n in ['__add__', '__matmul__', '__rmatmul__', 'copy', 'elements_satisfying', 'facets_around', 'facets_satisfying', 'init_refdom', 'mirrored', 'morphed', 'normalize_facets', 'refined', 'remove_elements', 'remove_unused_nodes', 'remove_duplicate_nodes', 'restrict', 'scaled', 'translated', 'trace', 'with_defaults', 'oriented', 'orientation', 'to_meshtri', 'to_meshtet', '__mul__', 'init_circle', 'init_lshaped', 'init_sqsymmetric', 'init_symmetric', 'init_ball', '__call__', 'normalize_elements']})
 
 
 def replay(ctx, data):
